@@ -144,3 +144,33 @@ package badger
 //@   ghostset after "result := <-ch": sawErr = sawErr || result.error != nil
 //@   invariant loop 1: !sawErr
 //@   ensures result == nil && db != nil && ctx != nil ==> !sawErr
+
+//@ func BadgerDB.KeysInRange
+//@   prop C05 C01
+//@   safety_off
+//@   calls_havoc
+//@   modifies *
+//@   ghost sawErr bool = false
+//@   ghostset after "result := <-ch": sawErr = sawErr || result.error != nil
+//@   invariant loop 1: !sawErr
+//@   ensures result1 == nil && db != nil && ctx != nil ==> !sawErr
+
+//@ func BadgerDB.SendKeysInRange
+//@   prop C05 C01
+//@   safety_off
+//@   calls_havoc
+//@   modifies *
+//@   ghost sawErr bool = false
+//@   ghostset after "result := <-ch": sawErr = sawErr || result.error != nil
+//@   invariant loop 1: !sawErr
+//@   ensures result == nil && db != nil && ctx != nil ==> !sawErr
+
+//@ func BadgerDB.GetRange
+//@   prop C05 C01
+//@   safety_off
+//@   calls_havoc
+//@   modifies *
+//@   ghost sawErr bool = false
+//@   ghostset after "result := <-ch": sawErr = sawErr || result.error != nil
+//@   invariant loop 1: !sawErr
+//@   ensures result1 == nil && db != nil && ctx != nil ==> !sawErr
